@@ -371,6 +371,14 @@ func (h *Heap[T]) ghostRootMin() {
 //@     invariant 1 <= k && forall(0, k, func(j int) bool { return j < len(h.data) ==> hpRank(h, h.data[0]) <= hpRank(h, h.data[j]) })
 //@     invariant k < len(h.data) ==> hpRank(h, h.data[(k-1)/2]) <= hpRank(h, h.data[k])
 
+// The partitions are entered into the heap with the index assigner already installed: each
+// partition must know its slot from the first Push on (Push/Pop/Delete fix the heap at that slot).
+//@ func NewPartitionedPriorityQueue
+//@   property C19 C10
+//@   nosafety
+//@   order Push after SetIndexAssigner
+//@   ensures called(SetIndexAssigner)
+
 //@ func NewHeap
 //@   property C19 C10
 //@   ensures result != nil && len(result.data) == 0
